@@ -141,6 +141,39 @@ def make_edit(plan, facts, stats):
                 ri.has_wide_offsets = want_wide
                 stats["rows_reencoded"] = stats.get("rows_reencoded", 0) + 1
                 ch = True
+        if kind == "tile" and plan.get("drop_empty_rows") and len(obj.rowInfos) >= 2:
+            # Numbers keeps no row record for a row without content (13 tiles of the shipped fixtures have such gaps; their numrows
+            # is the number of records): records whose cells are all plain empty ones (generic type, no flag bit) are removed
+            plain_rows = []
+            for k, ri in enumerate(obj.rowInfos):
+                plain = True
+                if ri.cell_count:
+                    offs = array("H")
+                    offs.frombytes(ri.cell_offsets)
+                    unit = 4 if ri.has_wide_offsets else 1
+                    for o in offs:
+                        if o == 0xFFFF:
+                            continue
+                        rec = ri.cell_storage_buffer[o * unit:o * unit + 12]
+                        if len(rec) < 12 or rec[1] != 0 or rec[8:12] != b"\0\0\0\0":
+                            plain = False
+                            break
+                if plain:
+                    plain_rows.append(k)
+            chosen = {k for k in plain_rows if plan["drop_empty_rows"] == "all" or rnd.random() < 0.6}
+            if len(chosen) == len(obj.rowInfos):
+                chosen.discard(min(chosen))
+            keep = [type(ri).FromString(ri.SerializeToString()) for k, ri in enumerate(obj.rowInfos) if k not in chosen]
+            dropped = len(chosen)
+            if dropped and keep:
+                del obj.rowInfos[:]
+                for ri in keep:
+                    obj.rowInfos.add().CopyFrom(ri)
+                obj.numrows = len(keep)
+                stats["row_records_dropped"] = stats.get("row_records_dropped", 0) + dropped
+                if obj.numrows and max(r.tile_row_index for r in keep) + 1 > len(keep):
+                    stats["tiles_with_row_gaps"] = stats.get("tiles_with_row_gaps", 0) + 1
+                ch = True
         if kind == "bucket" and plan.get("empty_row_headers") and ident in row_bucket_rows:
             have = {h.index for h in obj.headers}
             missing = [r for r in range(row_bucket_rows[ident]) if r not in have]
@@ -186,7 +219,7 @@ def rewrite(src, dst_dir, plan):
             except (iwa.FormatError, IndexError):
                 out.append((name, data))
                 continue
-            if plan.get("permute_lists") or plan.get("offsets") or plan.get("empty_row_headers"):
+            if plan.get("permute_lists") or plan.get("offsets") or plan.get("empty_row_headers") or plan.get("drop_empty_rows"):
                 S, n = rewrite_stream(S, edit)
             if plan.get("rechunk"):
                 mode = plan["rechunk"]
